@@ -7,9 +7,7 @@
    Builds on PP.Model.C05 (dof layout, projection_to) and PP.Model.C06 (equation
    bookkeeping, assemble).  Executable definitions only.
 
-   Not observed here: assembled_equation_indices after a Schur assembly (the inner
-   assemble(equations=[name]) calls of the second loop overwrite the dictionary stored for
-   the primary block; it is not part of this property and is not compared). *)
+   assembled_equation_indices after a Schur assembly belongs to C06 (PP.Model.C06_schur). *)
 From Coq Require Import List ZArith QArith Qabs Bool Arith.
 Close Scope Q_scope.
 Import ListNotations.
@@ -230,6 +228,19 @@ Definition inv_ok (tol : Q) (n : nat) (inv A : list (list Q)) : bool :=
       let x := Qred (qdot (nth i inv []) (column 0%Q A j)) in
       let d := if Nat.eqb i j then 1%Q else 0%Q in
       Qle_bool (Qabs (Qminus x d)) tol) (seq 0 n)) (seq 0 n).
+
+(* componentwise variant for badly scaled blocks:
+   |(inv*A)_ii - 1| <= tol  and  |(inv*A)_ij| <= tol * (|inv| * |A|)_ij  for i <> j *)
+Definition inv_ok_rel (tol : Q) (n : nat) (inv A : list (list Q)) : bool :=
+  Nat.eqb (length inv) n && Nat.eqb (length A) n &&
+  forallb (fun i =>
+    forallb (fun j =>
+      let col := column 0%Q A j in
+      let x := Qred (qdot (nth i inv []) col) in
+      if Nat.eqb i j then Qle_bool (Qabs (Qminus x 1%Q)) tol
+      else Qle_bool (Qabs x)
+                    (Qmult tol (Qred (qdot (map Qabs (nth i inv [])) (map Qabs col)))))
+      (seq 0 n)) (seq 0 n).
 
 Inductive sobs :=
 | ZErr (e : err)
